@@ -4,6 +4,8 @@ import (
 	"github.com/dadrus/heimdall/verif/engine"
 	"github.com/dadrus/heimdall/verif/props/c01"
 	"github.com/dadrus/heimdall/verif/props/c02"
+	"github.com/dadrus/heimdall/verif/props/c03"
+	"github.com/dadrus/heimdall/verif/props/c04"
 	"github.com/dadrus/heimdall/verif/props/c06"
 	"github.com/dadrus/heimdall/verif/props/c07"
 	"github.com/dadrus/heimdall/verif/props/c08"
@@ -22,6 +24,8 @@ func main() {
 	for _, c := range []*engine.Check{
 		c01.Check(),
 		c02.Check(),
+		c03.Check(),
+		c04.Check(),
 		c06.Check(),
 		c07.Check(),
 		c08.Check(),
